@@ -169,6 +169,89 @@ def run_cases(ctx, doubles):
                     ctx.diverge('denotations differ for d=%r: %s vs %s' % (d, rep[3], rep[4]), {'bits': b})
 
 
+def run_expo(ctx, doubles):
+    """the same floats rendered THROUGH the two expositions (sample values, le labels, exemplar values), many per scrape —
+    the property speaks of every float the library renders, not only of floatToGoString called alone"""
+    import famcodec
+    from prometheus_client import CollectorRegistry, generate_latest
+    from prometheus_client.metrics_core import GaugeMetricFamily, HistogramMetricFamily, CounterMetricFamily
+    from prometheus_client.openmetrics import exposition as om
+    from prometheus_client.samples import Exemplar
+
+    class Coll:
+        def __init__(self, fams): self.fams = fams
+        def collect(self): return self.fams
+
+    reqs, expect = [], []
+    B = 40
+    for start in range(0, len(doubles), B):
+        batch = doubles[start:start + B]
+        g = GaugeMetricFamily('v', 'values', labels=['i'])
+        for k, d in enumerate(batch):
+            g.add_metric([str(k)], d)
+        fams = [g]
+        # le labels and exemplar values: a histogram family built from the positive finite values of the batch
+        bounds = sorted({d for d in batch if d == d and 0 < d < math.inf})[:8]
+        if bounds:
+            buckets = [(utils_go(b), float(j + 1), Exemplar({'t': 'x'}, b)) for j, b in enumerate(bounds)]
+            buckets.append(('+Inf', float(len(bounds) + 1), None))
+            fams.append(HistogramMetricFamily('h', 'hist', buckets=[(b, c, e) for b, c, e in buckets], sum_value=1.0))
+        reg = CollectorRegistry(); reg.register(Coll(fams))
+        for fmt, gen in (('text', generate_latest), ('om', om.generate_latest)):
+            try:
+                out = gen(reg).decode('utf-8')
+            except Exception as e:
+                ctx.fail('C13:expo-raises', '%s exposition of a batch of floats raised %s' % (fmt, type(e).__name__),
+                         {'bits_list': [lib.bits_of(d) for d in batch], 'fmt': fmt})
+                continue
+            lines = out.split('\n')
+            seen = {}
+            for ln in lines:
+                if ln.startswith('v{i="'):
+                    k = int(ln[5:ln.index('"', 5)])
+                    seen[k] = ln.split('} ', 1)[1].split(' ')[0]
+            for k, d in enumerate(batch):
+                ctx.case(nontrivial_key=('expo', fmt, lib.bits_of(d)))
+                tok = seen.get(k)
+                if tok is None:
+                    ctx.fail('C13:expo-missing', '%s exposition lost sample %d of a batch' % (fmt, k), {'bits_list': [lib.bits_of(x) for x in batch], 'fmt': fmt})
+                    continue
+                try:
+                    back = float(tok)
+                except ValueError:
+                    back = None
+                if back is None or lib.bits_of(back) != lib.bits_of(d):
+                    ctx.fail('C13:expo-inexact', '%s exposition renders sample value %r (bits %016x) as %r, which parses back to %r — in a scrape that also holds %s'
+                             % (fmt, d, lib.bits_of(d), tok, back, [repr(x) for x in batch if x == d and lib.bits_of(x) != lib.bits_of(d)][:2]),
+                             {'bits_list': [lib.bits_of(x) for x in batch], 'fmt': fmt, 'index': k})
+            # le labels and exemplar values of the histogram family
+            for ln in lines:
+                if ln.startswith('h_bucket{le="') and '+Inf' not in ln.split('}')[0]:
+                    le = ln[13:ln.index('"', 13)]
+                    j = int(float(ln.split('} ', 1)[1].split(' ')[0])) - 1
+                    if 0 <= j < len(bounds) and lib.bits_of(float(le)) != lib.bits_of(bounds[j]):
+                        ctx.fail('C13:expo-le-inexact', '%s exposition renders le bound %r as %r' % (fmt, bounds[j], le),
+                                 {'bits_list': [lib.bits_of(x) for x in batch], 'fmt': fmt})
+                    if fmt == 'om' and ' # {' in ln:
+                        ev = ln.split(' # {', 1)[1].split('} ', 1)[1].split(' ')[0]
+                        if 0 <= j < len(bounds) and lib.bits_of(float(ev)) != lib.bits_of(bounds[j]):
+                            ctx.fail('C13:expo-exemplar-inexact', 'om exposition renders exemplar value %r as %r' % (bounds[j], ev),
+                                     {'bits_list': [lib.bits_of(x) for x in batch], 'fmt': fmt})
+            reqs.append('expo %s %s' % (fmt, famcodec.enc_families(fams)))
+            expect.append((fmt, out, [lib.bits_of(x) for x in batch]))
+    replies = ctx.driver.run(reqs)
+    if replies is not None:
+        for r, (fmt, out, bl) in zip(replies, expect):
+            ctx.traces += 1
+            if not r.startswith('ok ') or lib.unhx(r.split(' ')[1]) != out:
+                ctx.diverge('%s exposition of a batch of floats differs from the model' % fmt, {'bits_list': bl, 'fmt': fmt})
+
+
+def utils_go(b):
+    from prometheus_client import utils
+    return utils.floatToGoString(b)
+
+
 def run(ctx):
     ctx.rule = ('doubles: every power of ten ±1,±2 ulp over the whole exponent range, digit-count × trailing-zero patterns '
                 '(1–17 integer digits), neighbours of 1e6/1e7/1e10/1e15/1e16/1e17/1e21/1e22, integers to 2^64, subnormals, '
@@ -176,13 +259,23 @@ def run(ctx):
     n = 4000 if ctx.tier == 'quick' else 200000
     if ctx.broken:
         n *= 3  # a proof obligation broke: widen the failing-input search
-    run_cases(ctx, gen_doubles(ctx, n))
+    ds = gen_doubles(ctx, n)
+    run_cases(ctx, ds)
+    # through the expositions: signed zeros, NaN, infinities and neighbours side by side in one scrape
+    rng = ctx.rng
+    mix = [0.0, -0.0, 1.0, -1.0, math.nan, math.inf, -math.inf, 5e-324, -5e-324, 1e6, 1000000.0000000001, 1e16, 123456789.125]
+    sample = mix + [ds[i] for i in range(0, len(ds), max(1, len(ds) // (600 if ctx.tier == 'quick' else 6000)))]
+    rng.shuffle(sample)
+    run_expo(ctx, mix + sample)
 
 
 def replay(ctx, case):
     c = case.get('case', {})
-    d = lib.from_bits(int(c['bits']))
-    run_cases(ctx, [d])
+    if 'bits_list' in c:
+        run_expo(ctx, [lib.from_bits(int(b)) for b in c['bits_list']])
+    else:
+        d = lib.from_bits(int(c['bits']))
+        run_cases(ctx, [d])
     for f in ctx.failures:
         print('REPLAY-FAIL', f['what'])
     for f in ctx.divergences:
